@@ -64,6 +64,12 @@ Theorem C19_derived :
   forallb (fun s => if string_dec (fst s) "src/dovi/plotter.rs" then true else fst (snd s) =? snd (snd s)) nits_to_pq_sites = true.
 Proof. vm_compute. repeat split; try reflexivity; discriminate. Qed.
 
+(* the users of pq_to_nits normalise a 12-bit code by 4095 and by nothing else (regenerated) *)
+Theorem C19_code_normalisation :
+  forallb (fun s => (snd (snd s) =? 0)%Z) pq_code_norm_sites = true /\
+  existsb (fun s => (0 <? fst (snd s))%Z) pq_code_norm_sites = true.
+Proof. vm_compute. split; reflexivity. Qed.
+
 Print Assumptions C19_nits_table_correct.
 Print Assumptions C19_code_table_correct.
 Print Assumptions C19_roundtrip_codes.
